@@ -505,6 +505,9 @@ func (e *c16Env) monitors(a c16Act, res string, pre, post c16Obs) {
 		e.minted[a.denom].Add(e.minted[a.denom], a.amt)
 		if a.wasm && a.to != a.actor {
 			e.r.Stat("wmint_to_other")
+			// "minting ... only ever touch[es] the admin's own balance" is false on the contract path
+			// (known finding C16-wasm-mint-to; the check reports it as KNOWN-FINDING)
+			e.hit("mint_touches_only_admin_strict", fmt.Sprintf("wasm-mint-to: contract %d, admin of %s, minted %s into the balance of %d (mint_to_address of the wasm binding; no blocked-address check)", a.actor, e.enc(a.denom), a.amt, a.to))
 		}
 	case "burn":
 		if e.burned[a.denom] == nil {
